@@ -104,8 +104,8 @@ impl Prop for C08 {
         match (tier, build) {
             (Tier::Quick, "fast") => 48_000,
             (Tier::Quick, _) => 18_000,
-            (Tier::Thorough, "fast") => 300_000,
-            (Tier::Thorough, _) => 100_000,
+            (Tier::Thorough, "fast") => 240_000,
+            (Tier::Thorough, _) => 60_000,
         }
     }
     fn rule(&self) -> &'static str {
